@@ -44,6 +44,12 @@ func c15Put(path string, state int, entries []database.Command, faultTimes int) 
 }
 
 func c15Run(mainStates, personalStates []int, maxAttemptsHi int, symbolicDelays bool) {
+	c15RunF(mainStates, personalStates, maxAttemptsHi, symbolicDelays, false)
+}
+
+var c15FactorGrid []float64
+
+func c15RunF(mainStates, personalStates []int, maxAttemptsHi int, symbolicDelays bool, symbolicFactor bool) {
 	root := verifFSRoot()
 	mainPath, personalPath := root+"/db/commands.yml", root+"/cfg/personal.yml"
 	ms := mainStates[verifIntRange("main", 0, len(mainStates)-1)]
@@ -66,6 +72,15 @@ func c15Run(mainStates, personalStates []int, maxAttemptsHi int, symbolicDelays 
 		verifAssume(cfg.BaseDelay <= 1<<40)
 		verifAssume(cfg.MaxDelay >= 1)
 		verifAssume(cfg.MaxDelay <= 1<<40)
+	}
+	if c15FactorGrid != nil {
+		cfg.BackoffFactor = c15FactorGrid[verifIntRange("factorIdx", 0, len(c15FactorGrid)-1)]
+		cfg.BaseDelay = []time.Duration{1, 100 * time.Millisecond, 1 << 40}[verifIntRange("baseIdx", 0, 2)]
+		cfg.MaxDelay = []time.Duration{1, 5 * time.Second, 1 << 40}[verifIntRange("maxIdx", 0, 2)]
+	} else if symbolicFactor {
+		cfg.BackoffFactor = verifFloat64("factor")
+		verifAssume(cfg.BackoffFactor >= 1)
+		verifAssume(cfg.BackoffFactor <= 1e9)
 	}
 	start := time.Now()
 	db, err := NewDatabaseRecovery(cfg).LoadDatabaseWithFallback(mainPath, personalPath)
@@ -103,6 +118,16 @@ func c15Run(mainStates, personalStates []int, maxAttemptsHi int, symbolicDelays 
 	}
 	// the returned database is searchable
 	_ = db.SearchUniversal("list", database.SearchOptions{Limit: 3, AllPlatforms: true})
+	// when every attempt fails for a retryable reason there are attempts-1 waits, each at
+	// least min(base, max) and at most max (observable natively as elapsed fake time)
+	if (ms == c15Garbage || ms == c15Dir) && (symbolicDelays || symbolicFactor || c15FactorGrid != nil) {
+		lo := cfg.BaseDelay
+		if cfg.MaxDelay < lo {
+			lo = cfg.MaxDelay
+		}
+		verifAssert(elapsed >= time.Duration(attempts-1)*lo, "C15: waits never decrease (total wait is at least attempts-1 times the first wait)")
+		verifAssert(elapsed <= time.Duration(attempts-1)*cfg.MaxDelay, "C15: no wait exceeds the configured maximum (total wait bounded)")
+	}
 	// no futile retries: a missing or permission-denied file is tried once => no waiting at all
 	if ms == c15Missing || ms == c15Denied {
 		verifAssert(elapsed == 0, "C15: a missing or permission-denied database file is tried once (no retry wait)")
@@ -134,4 +159,15 @@ func VerifHarness_C15_LadderDelays() {
 }
 func VerifHarness_C15_Ladder4() {
 	c15Run([]int{c15OK, c15Missing, c15Dir, c15Garbage, c15Denied, c15IOErr}, []int{c15OK, c15Missing, c15Garbage, c15Dir, c15IOErr, c15Denied}, 4, false)
+}
+
+func VerifHarness_C15_LadderFactor() {
+	c15RunF([]int{c15Garbage}, []int{c15Missing}, 3, true, true)
+}
+
+// back-off factor, first wait and cap from grids (concrete arithmetic, symbolic choices)
+func VerifHarness_C15_LadderGrid() {
+	c15FactorGrid = []float64{1, 1.5, 2, 1e3, 1e6, 1e9}
+	c15RunF([]int{c15Garbage, c15Missing}, []int{c15Missing}, 4, false, false)
+	c15FactorGrid = nil
 }
